@@ -45,6 +45,14 @@ func literalValueFocusSchema() *schema.BodySchema {
 	attrs["td"] = &schema.AttributeSchema{IsOptional: true, Constraint: schema.TypeDeclaration{}}
 	// attribute names that differ in letter case only (legal in HCL and cty): wherever names are listed they are in byte order
 	attrs["tdc"] = &schema.AttributeSchema{IsOptional: true, Constraint: schema.TypeDeclaration{}}
+	// tuples with elements of different types, under a tuple type and under the dynamic type
+	attrs["lt_tuple"] = &schema.AttributeSchema{IsOptional: true, Constraint: schema.LiteralType{Type: cty.Tuple([]cty.Type{cty.String, cty.Number, cty.Bool})}}
+	attrs["lt_tuple2"] = &schema.AttributeSchema{IsOptional: true, Constraint: schema.LiteralType{Type: cty.Tuple([]cty.Type{cty.Number, cty.String})}}
+	attrs["lt_dyn"] = &schema.AttributeSchema{IsOptional: true, Constraint: schema.LiteralType{Type: cty.DynamicPseudoType}}
+	attrs["any_dyn"] = &schema.AttributeSchema{IsOptional: true, Constraint: schema.AnyExpression{OfType: cty.DynamicPseudoType}}
+	// collection types whose element type is still to be written
+	attrs["tdl"] = &schema.AttributeSchema{IsOptional: true, Constraint: schema.TypeDeclaration{}}
+	attrs["tds"] = &schema.AttributeSchema{IsOptional: true, Constraint: schema.List{Elem: schema.TypeDeclaration{}}}
 	// values that are exactly one interpolation of a literal
 	attrs["tw_num"] = &schema.AttributeSchema{IsOptional: true, Constraint: schema.AnyExpression{OfType: cty.String}}
 	attrs["tw_bool"] = &schema.AttributeSchema{IsOptional: true, Constraint: schema.AnyExpression{OfType: cty.DynamicPseudoType}}
@@ -88,6 +96,8 @@ func literalValueFocusScenario(r *rand.Rand) *Scenario {
 	// (written without a random draw)
 	sb.WriteString("tdc = object({ name = string, Name = number, NAME = bool, other = string, Zeta = bool })\n")
 	sb.WriteString("lt_case = { id = \"a\", Id = 1, ID = true, title = \"t\", Zone = \"z\" }\n")
+	sb.WriteString("tdl = list()\ntds = [set(), map( )]\n")
+	sb.WriteString("lt_tuple = [\"one\", 42234, true]\nlt_tuple2 = [42234, \"one\"]\nlt_dyn = [\"one\", 42234]\nany_dyn = [true, \"x\", 7]\n")
 	sb.WriteString("tw_num = \"${3}\"\ntw_bool = \"${true}\"\ntw_str = \"${\"foo\"}\"\n")
 	sb.WriteString("inner {\n")
 	write("  ")
